@@ -280,6 +280,13 @@ impl Scenario for C16 {
                     }
                     Op::SetRounds(r) => {
                         if *r == 0 {
+                            // rejected with the documented panic on both sides; nothing may change
+                            let (g, t) = (real.g.as_mut(), twin.g.as_mut());
+                            let a = guard(|| g.jitter().unwrap().set_rounds(0));
+                            let b = guard(|| t.jitter().unwrap().set_rounds(0));
+                            if !(matches!(a, Err(SutFail::Panic(_))) && matches!(b, Err(SutFail::Panic(_)))) {
+                                return Err(E::End(RunEnd::Discard("set_rounds_0_did_not_panic".into())));
+                            }
                             continue;
                         }
                         let rr = *r;
